@@ -133,7 +133,7 @@ class BaseCache(Cache):
         metadata = self.load_metadata(storage, task_type, key)
         result_meta = self.build_result_meta(metadata)
         task = self.serializer.deserialize_task(metadata['task'], result_meta=result_meta)
-        if not isinstance(task, task_type):
+        if type(task) is not task_type:
             raise TaskNotFound
         return task
 
